@@ -9,13 +9,14 @@ nested calls (SIGWINCH handler) enumerated per read ordinal.   DESIGN.md 8.
 import random
 import re
 import signal as _signal
+import sys
 
 from sim import gen, setup, plan as planmod
 from sim.world import environment_artefact, HarnessError, StepCap, Quiescent
 
 PROP = "C18"
 LEVEL = "fault_enumeration"
-COUNTS = {"quick": 5000, "thorough": 250000}
+COUNTS = {"quick": 3500, "thorough": 250000}
 MAX_SECONDS = {"quick": 100, "thorough": 1500}
 DET_EVERY = {"quick": 30, "thorough": 300}
 SHRINK_BUDGET = 500
@@ -121,7 +122,8 @@ def gen_plan(seed, tier, index=0, avoid=()):
     h, w = rng.randint(1, 7), rng.randint(1, 10)
     if rng.random() < 0.5:
         cfg = {"h": h, "w": w, "encoding": enc, "callback": rng.random() < 0.75, "start_row": rng.randrange(h),
-               "out_buffer": rng.choice(("none", "line", "block", "block"))}
+               "out_buffer": rng.choice(("none", "line", "block", "block")),
+               "error_kinds": rng.choice((["EIO"], ["EIO", "EAGAIN", "EINTR"], ["EAGAIN"], ["EINTR", "EIO"]))}
         steps = [_gen_query(rng, enc) for _ in range(rng.choice((1, 1, 2, 3)))]
         return {"prop": PROP, "seed": seed, "mode": "A", "cfg": cfg, "steps": steps, "enumerate": True}
     # ---- part B
@@ -129,7 +131,8 @@ def gen_plan(seed, tier, index=0, avoid=()):
     # without a callback, input ahead of a report makes the query raise ValueError (allowed); the window
     # must stay usable: later queries still account for every movement
     cfg = {"h": h, "w": w, "encoding": enc, "callback": rng.random() < 0.8, "start_row": rng.randrange(h),
-           "out_buffer": rng.choice(("none", "line", "block", "block"))}
+           "out_buffer": rng.choice(("none", "line", "block", "block")),
+           "error_kinds": rng.choice((["EIO"], ["EIO", "EAGAIN", "EINTR"], ["EAGAIN"], ["EINTR", "EIO"]))}
     maxsteps = 25 if tier == "thorough" else 14
     nsteps = rng.choice((2, 3, 4, 6, rng.randint(2, maxsteps)))
     steps = []
@@ -272,23 +275,23 @@ SIMPLIFIERS = (_simp,)
 
 
 # ------------------------------------------------------------------------------------------
-def _variants(p, reads_per_step):
+def _variants(p, reads_per_step, lines_per_step=None):
+    lines_per_step = lines_per_step or {}
     """enumerate the fault variants of a scenario (concrete plans, enumerate=False)"""
     out = []
     if p["mode"] == "A":
         for i, st in enumerate(p["steps"]):
             m = reads_per_step.get(i, 0)
             for j in range(max(1, m - 30), m + 1):      # (with a lot of type-ahead: the reads around the report)
-                for cnt in (1, 3):
-                    q = planmod.clone(p)
-                    q["steps"][i]["read_errors"] = {str(j): cnt}
-                    out.append(q)
+                q = planmod.clone(p)
+                q["steps"][i]["read_errors"] = {str(j): 1 if j % 2 else 3}
+                out.append(q)
             q = planmod.clone(p)
             q["steps"][i]["read_errors"] = {str(j): 1 + (j % 2) for j in range(1, m + 1)}
             out.append(q)
             if m:
                 q = planmod.clone(p)
-                q["steps"][i]["read_errors"] = {str(1 + (len(out) % m)): 60}
+                q["steps"][i]["read_errors"] = {str(1 + (len(out) % m)): 25}
                 out.append(q)
             n = len(st["extra"])
             for split in sorted(set((0, n, n // 2))):
@@ -318,6 +321,14 @@ def _variants(p, reads_per_step):
                 q = planmod.clone(p)
                 q["steps"][i]["read_errors"] = {str(j): 2}
                 out.append(q)
+            # a SIGWINCH (whose handler calls get_cursor_vertical_diff again) between two lines of window.py
+            # while the call is on the stack - not only inside the reads of the query
+            nl = lines_per_step.get(i, 0) if i in diffs[:2] else 0
+            step_ = max(3, nl // 10)
+            for k in range(1 + (len(out) % 3), nl + 1, step_):
+                q = planmod.clone(p)
+                q["steps"][i]["nested"] = [{"at_line": k, "move": (1, 0, -1)[k % 3]}]
+                out.append(q)
     for q in out:
         q["enumerate"] = False
     return out
@@ -332,7 +343,7 @@ def run_plan(p, keep_log=False):
         return res
     import hashlib
     hh = hashlib.sha1(res["digest"].encode())
-    for q in _variants(p, res["reads_per_step"]):
+    for q in _variants(p, res["reads_per_step"], res.get("lines_per_step")):
         r2 = _run_one(q, False)
         res["executions"] += 1
         hh.update(r2["digest"].encode())
@@ -361,8 +372,9 @@ def _run_one(p, keep_log):
     s = setup.make({"h": cfg["h"], "w": cfg["w"], "encoding": cfg["encoding"], "yield_cap": 500000,
                     "out_buffer": cfg.get("out_buffer", "none")}, None, keep_log)
     world, term = s.world, s.term
+    s.inp.error_kinds = tuple(cfg.get("error_kinds") or ("EIO",))
     res = {"violation": None, "error": None, "probes": world.probes, "faults": world.faults,
-           "states": set(), "nsteps": 0, "reads_per_step": {}}
+           "states": set(), "nsteps": 0, "reads_per_step": {}, "lines_per_step": {}}
     try:
         if p["mode"] == "A":
             _exec_a(p, s, res)
@@ -585,6 +597,8 @@ def _exec_b(p, s, res):
         world.log.add("nested_diff", r)
     winch.spec = None
     winch.sim_name = "winch_handler"
+    import curtsies.window as _cw
+    line_tracer = world.make_tracer(_cw.__file__)
     kernel.sig.handlers[_signal.SIGWINCH] = winch
     try:
         for si, st in enumerate(p["steps"]):
@@ -619,7 +633,21 @@ def _exec_b(p, s, res):
                     world.probe("oserror_retry")
                 s.inp.nreads = 0
                 s.inp._err_left = None
-                nested = {int(n["at_read"]): n for n in st["nested"]}
+                nested = {int(n["at_read"]): n for n in st["nested"] if "at_read" in n}
+                line_nested = {int(n["at_line"]): n for n in st["nested"] if "at_line" in n}
+                line_no = [0]
+                prev_line_hook = world.on_main_line
+
+                def on_line(line_nested=line_nested, line_no=line_no):
+                    line_no[0] += 1
+                    spec = line_nested.get(line_no[0])
+                    if spec is not None and not spec.get("_fired"):
+                        spec["_fired"] = True
+                        winch.spec = spec
+                        kernel.sig.post(_signal.SIGWINCH)
+                    if prev_line_hook is not None:
+                        prev_line_hook()
+                world.on_main_line = on_line
                 call0 = s.inp.ncalls
                 succ0 = [0]
 
@@ -638,7 +666,15 @@ def _exec_b(p, s, res):
                 if base is None:
                     world.probe("diff_before_render")
                 try:
-                    ret = win.get_cursor_vertical_diff()
+                    sys.settrace(line_tracer)
+                    try:
+                        ret = win.get_cursor_vertical_diff()
+                    finally:
+                        sys.settrace(None)
+                        world.on_main_line = prev_line_hook
+                        res["lines_per_step"][si] = line_no[0]
+                        for n in line_nested.values():
+                            n.pop("_fired", None)
                 except HarnessError:
                     raise
                 except Quiescent:
